@@ -447,3 +447,29 @@ func (l *NatLoop) EveryIterationPasses(pred func(in ssa.Instruction) bool) bool 
 	vis := Reach(starts, func(in ssa.Instruction) bool { return pred(in) || in == first }, nil)
 	return !vis[first] || pred(first)
 }
+
+// RetVals returns the values a Return instruction returns. In functions with defer statements go/ssa spills the
+// results into local cells ("*r = v; rundefers; t = *r; return t"): such a result is resolved to the value stored
+// into the cell last in the returning block.
+func RetVals(ret *ssa.Return) []ssa.Value {
+	out := make([]ssa.Value, len(ret.Results))
+	for i, r := range ret.Results {
+		out[i] = r
+		u, ok := r.(*ssa.UnOp)
+		if !ok || u.Op != token.MUL {
+			continue
+		}
+		al, ok := u.X.(*ssa.Alloc)
+		if !ok || al.Heap {
+			continue
+		}
+		b := ret.Block()
+		for j := len(b.Instrs) - 1; j >= 0; j-- {
+			if st, isSt := b.Instrs[j].(*ssa.Store); isSt && st.Addr == ssa.Value(al) {
+				out[i] = st.Val
+				break
+			}
+		}
+	}
+	return out
+}
